@@ -36,3 +36,7 @@ def run(chk):
     L1m.settle(chk, [o for o in chk.obs if o.name.startswith("Point.SetBytes")], lambda: c04.decode_battery(chk.seed), "Point.SetBytes")
     L1m.settle(chk, [o for o in chk.obs if "SetExtendedCoordinates" in o.name], lambda: c13.setext_battery(chk.seed), "Point.SetExtendedCoordinates")
     chk.samples = [o.j() for o in chk.obs if "reject" in o.name or "(nil, error)" in o.name][:8]
+
+
+def safety_net(chk):
+    return c04.decode_battery(chk.seed) or c13.setext_battery(chk.seed) or c08.safety_net(chk)
